@@ -14,7 +14,9 @@ Inductive case :=
       (impl_curl impl_httpie : xres bytes) (bash must : bool) (sh_curl sh_httpie : shobs)
 | ShCmd (cmd : bytes) (must : bool) (obs : shobs)
 | Quote (args : list bytes) (impl_cmd : bytes) (must : bool) (obs : shobs)
-| Raw (r : request_head) (content : option bytes) (trailers : bytes) (impl : res bytes).
+| Raw (r : request_head) (content : option bytes) (trailers : bytes) (impl : res bytes)
+(* several exports of the same flow object; the model inputs are read from a copy made before the first export *)
+| Hist (fp fg preserve : bool) (addr : option bytes) (s : flowst) (fs : list fmt) (impl : list eout).
 
 Definition xres_eqb (a b : xres bytes) : bool :=
   match a, b with
@@ -27,6 +29,13 @@ Definition res_eqb (a b : res bytes) : bool :=
   match a, b with
   | Ok x, Ok y => bytes_eqb x y
   | ValueError, ValueError | OtherError, OtherError => true
+  | _, _ => false
+  end.
+
+Definition eout_eqb (a b : eout) : bool :=
+  match a, b with
+  | OX x, OX y => xres_eqb x y
+  | OR x, OR y => res_eqb x y
   | _, _ => false
   end.
 
@@ -66,4 +75,6 @@ Definition check_case (c : case) : bool :=
   | Quote args impl must obs =>
       bytes_eqb (join_sp (map quote args)) impl && sh_agrees must impl obs
   | Raw r content trailers impl => res_eqb (raw_request r content trailers) impl
+  | Hist fp fg preserve addr s fs impl =>
+      list_eqb eout_eqb (fst (export_history (mkVar fp fg) preserve addr s fs)) impl
   end.
